@@ -3,9 +3,11 @@
 usage: tools/store_seed.py <prop lower, e.g. c07> <A|B> """
 import json, os, re, shutil, sys, glob
 p, x = sys.argv[1], sys.argv[2]
+pfx = sys.argv[3] if len(sys.argv) > 3 else "brk"
 P = p.upper()
-src = "/tmp/brk_%s_out" % p
-dst = "/verif/seeded/%s-%s" % (P, x)
+src = "/tmp/%s_%s_out" % (pfx, p)
+label = x if pfx == "brk" else {"A": "C", "B": "D"}[x] if pfx == "brk2" else {"A": "E", "B": "F"}[x]
+dst = "/verif/seeded/%s-%s" % (P, label)
 os.makedirs(dst, exist_ok=True)
 shutil.copy(os.path.join(src, x + ".diff"), os.path.join(dst, "patch.diff"))
 for f in glob.glob(os.path.join(src, x + "_*demo*.cc")):
@@ -20,7 +22,7 @@ for log in sorted(glob.glob("/tmp/confirm_round*.log")):
 ev = []
 for log in sorted(glob.glob("/tmp/seed_round*.log")):
     for l in open(log):
-        if l.startswith("%s brk_%s_out/%s.diff " % (P, p, x)):
+        if l.startswith("%s %s_%s_out/%s.diff " % (P, pfx, p, x)):
             ev.append(l.strip())
 desc = open(os.path.join(dst, "description.md")).read() if os.path.exists(os.path.join(dst, "description.md")) else ""
 needs = ""
@@ -28,17 +30,18 @@ m = re.search(r"(?is)(trigger|what is needed|needs|manifest)[^\n]*\n(.{0,900})",
 if m:
     needs = m.group(0)[:900]
 meta = {
-    "id": "%s-%s" % (P, x),
+    "id": "%s-%s" % (P, label),
     "property": P,
     "source": "independent sub-agent given only the property text and a scratch worktree of /repo (no access to /verif)",
     "needs_to_manifest": needs or "see description.md",
     "confirmation": conf or "(pending)",
     "what_i_ran": [
-        "tools/confirm_seed.sh /tmp/brk_%s /tmp/brk_%s_out %s   # apply, cmake build with repo flags, ctest (ProcessTest in a private PID namespace), demo fails; revert, rebuild, demo passes" % (p, p, x),
-        "tools/seed_eval.py %s /tmp/brk_%s_out/%s.diff   # quick check against /repo/src + patch" % (P, p, x),
+        "tools/confirm_seed.sh /tmp/PFX_%s /tmp/PFX_%s_out %s   # apply, cmake build with repo flags, ctest (ProcessTest in a private PID namespace), demo fails; revert, rebuild, demo passes" % (p, p, x),
+        "tools/seed_eval.py %s /tmp/PFX_%s_out/%s.diff   # quick check against /repo/src + patch" % (P, p, x),
     ],
     "check_results": ev,
     "detected_by_quick_check": bool(ev) and (" exit=1 " in ev[-1]),
 }
+meta["what_i_ran"] = [w.replace("PFX", pfx) for w in meta["what_i_ran"]]
 json.dump(meta, open(os.path.join(dst, "meta.json"), "w"), indent=1)
 print(dst, meta["confirmation"][:60], "| detected:", meta["detected_by_quick_check"])
